@@ -137,7 +137,7 @@ class Bundler:
             msg = a[0]
             me.stop = {"exit_status": msg.kwargs.get("exit_status", "success") or "success", "reason": msg.kwargs.get("reason") or ""}
             me.open = False
-            ev("close_run", me)
+            ev("close_run", me, msg)
             return aio.Ready(me.uid)
 
         def simple(name, ret=None, awaitable=True):
